@@ -324,9 +324,6 @@ func cmdRun(args []string) int {
 		return 2
 	}
 	prop, tier := args[0], args[1]
-	if t := os.Getenv("VERIF_TIER"); t == "quick" || t == "thorough" {
-		tier = t
-	}
 	seed := envSeed()
 	t0 := time.Now()
 	fmt.Printf("simcheck run %s %s: VERIF_SEED=%d go=%s\n", prop, tier, seed, runtime.Version())
